@@ -21,9 +21,24 @@ def gen_free(rng, i):
     return {"base": base, "mode": mode, "progs": progs, "steps": [], "free": True}
 
 
+def gen_lap(rng, i):
+    """activity with non-zero round trips, then exactly one or two ring laps (10 s) later activity in the same slots"""
+    base = 1_700_000_000_000 + rng.randrange(0, 100000) * BUCKET + rng.randrange(0, 400)
+    inb = 1 if rng.chance(0.5) else 0
+    progs = [[("B", rng.pick([1, 2]), inb), ("X",)], [("B", 1, inb), ("X",), ("B", 1, inb), ("X",)]]
+    rt = rng.pick([3, 7, 40])
+    lap = rng.pick([10000, 10000, 20000])
+    # thread 0: build, wait rt, exit; one lap later thread 1 does the same twice
+    steps = [(0, 0)] * 6 + [(0, rt)] + [(0, 0)] * 12
+    steps += [(1, lap - rt)] + [(1, 0)] * 5 + [(1, rt)] + [(1, 0)] * 12 + [(1, 0)] * 6 + [(1, 1)] + [(1, 0)] * 12
+    return {"base": base, "mode": rng.pick([1, 2]), "progs": progs, "steps": steps, "free": False}
+
+
 def gen_case(rng, i):
     if i % 10 == 7:
         return gen_free(rng, i)
+    if i % 10 == 3:
+        return gen_lap(rng, i)
     nt = rng.pick([2, 2, 2, 3, 3, 4])
     mode = rng.pick([0, 1, 1, 1, 2, 2])
     # base near the start, the middle or the end of a 500 ms bucket
@@ -88,6 +103,42 @@ def gen_case(rng, i):
     return {"base": base, "mode": mode, "progs": progs, "steps": steps, "free": False}
 
 
+class C14FirstTouch(PropBase):
+    """many rounds of simultaneous first touches of brand-new resources by real threads (no forced schedule)"""
+    id = "C14"
+    harness = "ft"
+    per_process = True
+    props_file = "Props/C14.v"
+    props_module = "Props.C14"
+    coq_imports = ("From SV Require Import Model.Base Model.LeapArray Model.World Model.Conc Spec.C14Spec Run.Common Run.RunConc.\n"
+                   "Open Scope N_scope.")
+    case_type = "ftcase"
+    agree_fn = "agree_ft"
+    spec_fn = "spec_ft"
+    counts = {"quick": 16, "thorough": 64}
+    rule = ("one process per case: 2-4 real threads, 300-600 rounds; in every round all threads build and exit one entry on a "
+            "brand-new resource at the same moment (barrier); after the round the node the map holds must be the node every "
+            "thread got, with in-flight 0 and pass = complete = number of threads; non-trivial = every case")
+    assumptions = []
+    trusted_extra = []
+    partial_note = ""
+
+    def gen(self, rng, n, tier):
+        return [{"nt": rng.pick([2, 3, 3, 4]), "rounds": rng.pick([300, 600]), "k": i} for i in range(n)]
+
+    def line(self, c):
+        return "%d %d" % (c["nt"], c["rounds"])
+
+    def key(self, c):
+        return "%d %d %d" % (c["nt"], c["rounds"], c["k"])
+
+    def coq(self, c):
+        return "mkFT %d %d" % (c["nt"], c["rounds"])
+
+    def stats(self, cases, obs):
+        return {"rounds": sum(c["rounds"] for c in cases)}
+
+
 class C14(PropBase):
     id = "C14"
     harness = "conc"
@@ -120,6 +171,9 @@ class C14(PropBase):
                     "Preemption inside a micro-step (between two atomic operations that the model executes together, e.g. "
                     "the stamp test and the stamp store of one bucket lookup) is not modelled; memory-ordering effects "
                     "below SeqCst are not modelled")
+
+    def parts(self):
+        return [self, C14FirstTouch()]
 
     def gen(self, rng, n, tier):
         return [gen_case(rng, i) for i in range(n)]
